@@ -2356,6 +2356,32 @@ def opt_norm(fn, e, depth=0):
     return ('opt', untry(e))
 
 
+def variant_projection(P, fid):
+    """(variant, payload index) when the in-crate function `fid` is `match self { V(.., x, ..) => Some(x), _ => None }` (by value,
+    by reference or dereferenced) and nothing else; None otherwise"""
+    f = P.fns.get(fid)
+    if f is None or f.kind == 'Closure' or f.nargs != 1 or f.loops() or not f.raw.get('output', '').startswith('std::option::Option<'):
+        return None
+    sws = f.switches()
+    if len(sws) != 1 or sws[0]['cond'][0] != 'discr' or strip(sws[0]['cond'][1])[0] != 'arg':
+        return None
+    hit = None
+    for lab, tgt in sws[0]['edges']:
+        xs = [x for x in f.exits() if f.dominates(tgt, x['block'])]
+        if len(xs) != 1:
+            return None
+        v = strip(xs[0]['expr'])
+        if v[0] == 'agg' and v[1].endswith('Option::None'):
+            continue
+        if v[0] == 'agg' and v[1].endswith('Option::Some') and v[2]:
+            pl = strip(v[2][0][1])
+            if pl[0] == 'payload' and strip(pl[1])[0] == 'arg' and pl[2] == lab and hit is None:
+                hit = (lab, pl[3] if len(pl) > 3 else 0)
+                continue
+        return None
+    return hit
+
+
 def _closure_body(P, c, params):
     """the value a closure / function reference returns, in the creator's terms (single exit only)"""
     if not (isinstance(c, tuple) and c and c[0] in ('closure', 'fnref') and c[1] in P.fns):
